@@ -5,6 +5,7 @@ import json
 import random
 import sys
 import warnings
+from guard import guarded
 
 warnings.filterwarnings('ignore')
 import numpy as np  # noqa: E402
@@ -137,7 +138,12 @@ def layout_descs(maxlen):
                     if sub[0] in lay.data_qubit_ids and sub[-1] in lay.data_qubit_ids:
                         nd = sum(1 for q in sub if q in lay.data_qubit_ids)
                         for refocus in (True, False):
-                            yield RepetitionCodeDescription.from_connectivity(involved_qubit_ids=sub, connectivity=lay, qubit_refocusing=refocus), '%s:%s%s' % (lay.__class__.__name__, '-'.join(q.id for q in sub), '' if refocus else ':norefocus'), nd, refocus
+                            name = '%s:%s%s' % (lay.__class__.__name__, '-'.join(q.id for q in sub), '' if refocus else ':norefocus')
+                            try:
+                                desc = RepetitionCodeDescription.from_connectivity(involved_qubit_ids=sub, connectivity=lay, qubit_refocusing=refocus)
+                            except Exception as e:                      # noqa: BLE001  reported as an error row by main()
+                                desc = e
+                            yield desc, name, nd, refocus
 
 
 def main(out, dmax, cmax, nlayout, seed, anc_states):
@@ -152,24 +158,28 @@ def main(out, dmax, cmax, nlayout, seed, anc_states):
                 if anc_states and name.endswith(str(d)):
                     ancs += [tuple(rnd.randint(0, 1) for _ in range(na)) for _ in range(2)] + [tuple([1] * na)]
                 for ab in ancs:
-                    rows += one(desc, name, d, bits, ab, cycles, 'main', refocus=rf)
+                    rows += guarded(one, desc, name, d, bits, ab, cycles, 'main', refocus=rf, _many=True, _label=name)
             if name.endswith(str(d)) and d <= 3:
-                rows += one(desc, name, d, states[-1], None, cycles, 'simplified')
+                rows += guarded(one, desc, name, d, states[-1], None, cycles, 'simplified', _many=True, _label=name)
     lds = list(layout_descs(5))
+    for desc, name, nd, rf in lds:
+        if isinstance(desc, Exception):
+            rows.append({'t': 'error', 'exc': '%s: %s' % (type(desc).__name__, str(desc)[:200]), 'where': 'from_connectivity', 'input': name})
+    lds = [x for x in lds if not isinstance(x[0], Exception)]
     rnd.shuffle(lds)
     for desc, name, nd, rf in lds[:nlayout]:
         for cycles in (0, 1, 2, rnd.randint(3, max(3, cmax))):
             bits = tuple(rnd.randint(0, 1) for _ in range(nd))
-            rows += one(desc, name, nd, bits, None, cycles, 'main', refocus=rf)
+            rows += guarded(one, desc, name, nd, bits, None, cycles, 'main', refocus=rf, _many=True, _label=name)
             if anc_states and nd >= 3 and cycles <= 1:
                 # requested ancilla states that are not all equal (the order of the ancillas along the chain matters)
                 ab = tuple((k + cycles) % 2 for k in range(nd - 1))
-                rows += one(desc, name, nd, bits, ab, cycles, 'main', refocus=rf)
+                rows += guarded(one, desc, name, nd, bits, ab, cycles, 'main', refocus=rf, _many=True, _label=name)
     # every ancilla of every shipped layout at least once with both of its chain neighbours: the shortest chains D-A-D, one
     # cycle, neighbours in different states (an entry of a layout table that pairs the ancilla with the wrong qubit shows here)
     for desc, name, nd, rf in lds:
         if nd == 2 and rf and ':norefocus' not in name:
-            rows += one(desc, name, nd, (1, 0), None, 1, 'main', refocus=rf)
+            rows += guarded(one, desc, name, nd, (1, 0), None, 1, 'main', refocus=rf, _many=True, _label=name)
     json.dump(rows, open(out, 'w'))
     print(len(rows))
 
